@@ -84,6 +84,90 @@ CHECKS = {
     },
 }
 
+CHECKS.update({
+    "C03": {
+        "technique": "static analysis: callability by abstract interpretation with virtual dispatch (definite AttributeError = violation), ordered symbolic shapes for the gradient-vector layout, term normal forms against a derivative table, loop summarisation + call records for per-basis grouping",
+        "text": "Every public gradient method of the three state types is callable (all paths); every gradient vector (10 producers, reduce/expand/phase contexts) has its segments in parameter registration order with "
+                "hidden-major weight flattening (ordered products: a transposed W segment is a layout error even though every test has nh == nv); energy-gradient segments equal -sigmoid(the energy's own pre-activation) x v etc.; "
+                "positive phase = gradient / rows of the same batch; group i uses basis unique[i] and samples[inverse == i], contribution k accumulated into gradient k, all-Z groups add no phase gradient; "
+                "exact negative phase = -G^T p/sum p on the amplitude network only.",
+        "design_ref": "DESIGN.md section 4 C03",
+        "note": TB + "Not decided: analytic correctness of rotated_gradient / pi_grad (derivatives through the basis rotation and the complex logarithm), the 1e-8 regulariser, finite-difference agreement.",
+    },
+    "C04": {
+        "technique": "static analysis: exact constant evaluation of the default unitaries over Q(sqrt 2), axis-role binding of index tensors vs einsum factors, index provenance (dependence) in the gather, order polarity of the Kronecker sweep",
+        "text": "Z is the identity, X and Y are unitary with U sigma U^dagger = diag(+1,-1) (rows = conjugated +1/-1 eigenvectors, exact arithmetic); in rotate_rho_probs both the model path and the explicit-rho path bind rho's "
+                "row index to the non-conjugated factor U and its column index to conj(U), and reductions remove exactly the expansion axes; the unitary is gathered as [site, :, measured outcome, summed input]; "
+                "sites are swept last-to-first with a stride starting at 1 (site 0 = leftmost Kronecker factor); rotate_rho = U (U rho)^dagger.",
+        "design_ref": "DESIGN.md section 4 C04",
+        "note": TB + "Not decided: numeric equality with the dense Kronecker product, non-negativity / normalisation of rotated probabilities, the in-place block arithmetic of _kron_mult beyond the stride order.",
+    },
+    "C06": {
+        "technique": "static analysis: term normal form of the CD update as a linear form (assume/guarantee stub for the positive phase), CFG dominance for the per-batch pipeline and the scheduler, effect/call-record pairing of gradient vectors with networks, exact slice offsets of vector_to_grads",
+        "text": "compute_batch_gradients == [positive[0] - E_grad(gibbs_steps(k, neg_batch)) / rows(neg_batch), positive[1]] with k and the negative batch forwarded unchanged (all state types); in fit the gradients are "
+                "computed, assigned network by network (gradient i -> parameters of network i) and applied by exactly one unconditional optimizer.step() per batch, never cleared in between; the optimizer is built over all "
+                "parameters with the caller's lr; scheduler.step() runs exactly once per epoch outside the batch loop; vector_to_grads writes vec[offset : offset+numel] reshaped to each parameter in parameters() order with exact polynomial offsets.",
+        "design_ref": "DESIGN.md section 4 C06",
+        "note": TB + "Not decided: what torch.optim.SGD.step does with the gradient (trusted), numeric equality of the parameter move.",
+    },
+    "C07": {
+        "technique": "static analysis: def-use identity of the random permutation (unique draw atoms), tiling of comprehension ranges, integer linear forms for batch counts, effect analysis on the caller's data",
+        "text": "Samples and bases are indexed by the same randperm(N) draw and cut by the same range(0, N, b) into slices [s, s+b); num_batches = ceil(N/b) is what fit passes on, negative rows are num_batches*neg_batch_size "
+                "random rows (bounded by the row count of the tensor they index) of the training data or of the all-Z rows, giving exactly num_batches negative batches so zip drops nothing; fit never writes data or input_bases "
+                "for tensor, ndarray and list inputs.",
+        "design_ref": "DESIGN.md section 4 C07",
+        "note": TB + "Not decided: uniformity of the shuffle. In the shared-permutation case the last negative batch has the size of the last positive batch (documented design).",
+    },
+    "C10": {
+        "technique": "static analysis: value-kind analysis of every return path, homogeneity degree of the normalisation constant seen through (multi)linear operations, term normal forms and call-record binding of KL/NLL",
+        "text": "fidelity, KL and NLL return a Python/numpy float on every path of every state type; model probabilities inside every logarithm and the overlap have degree exactly -1 in Z (divided once); "
+                "single-basis KL == sum t log t - sum t log m and is called with (target, model); KL is the mean over the bases, NLL == -(1/N) sum over basis groups of sum log p with each group's samples rotated with the group's "
+                "own basis; target and model are rotated by the same routine with the same (basis, space).",
+        "design_ref": "DESIGN.md section 4 C10",
+        "note": TB + "Not decided: the Uhlmann formula / eigenvalue computation, ranges, invariance under a global phase (numeric). The rotation routines are decided by C04.",
+    },
+    "C16": {
+        "technique": "static analysis: abstract interpretation of the operator overloads and composite apply() with opaque leaf values (term normal forms), type-case enumeration of the constructors",
+        "text": "All seven overloads with float / int / numpy.float64 / constant scalars in both operand positions and nested trees evaluate to exactly that arithmetic on the leaves' per-sample values; "
+                "SumObservable adds each operand exactly once for every accepted type pair, ProdObservable stores (scalar, observable) whichever side the scalar was on; non-linear or non-numeric combinations "
+                "are rejected at construction; composites inherit the statistics drivers, which evaluate the composite's own apply().",
+        "design_ref": "DESIGN.md section 4 C16",
+        "note": TB + "Not decided: behaviour of numpy scalar types' own __mul__/__add__ when they pre-empt the reflected operators.",
+    },
+    "C17": {
+        "technique": "static analysis: path partitioning on the period gate (effects only on paths that established epoch % period == 0), writer/reader agreement between record layout and accessors after two evaluations, literal agreement of CSV keys, call-record binding for the saver",
+        "text": "MetricEvaluator, ObservableEvaluator, ModelSaver, Logger and EarlyStopping act only on multiples of the period and in no other event (ModelSaver.on_train_start iff save_initial); each evaluation appends one "
+                "(epoch, values) record and sets last; len / epochs / names / per-name arrays / get_value (default most recent) / clear_history agree with that layout; CSV header == row keys; the saver names files by the "
+                "epoch ('initial'), passes (nn_state, epoch) to a callable metadata, saves dict metadata as is and None as {}.",
+        "design_ref": "DESIGN.md section 4 C17",
+        "note": TB + "Not decided: file contents. Metric functions, msg_gen and logger_fn are opaque user callables.",
+    },
+    "C18": {
+        "technique": "static analysis: integer linear forms of the lookback index and the history gate with path facts, term normal forms of the three criteria, path partitioning of the constructor refusals",
+        "text": "All lookback reads use index -p-1 and happen only on paths where len(evaluator) > p and epoch % period == 0; the relative / absolute / variance criteria are |(M_look - M_cur)/M_look|, |M_look - M_cur|, "
+                "|M_look - M_cur|/sqrt(V_look); the comparison is strict `<`; success sets stop_training = True and last_epoch = epoch; variance + MetricEvaluator, unknown criteria and non-evaluators are refused; "
+                "the deprecated class selects the variance criterion.",
+        "design_ref": "DESIGN.md section 4 C18",
+        "note": TB + "Relies on C17.R2 (one record per evaluation). The monitored values are opaque.",
+    },
+    "C19": {
+        "technique": "static analysis: order-polarity domain (ascending/descending significance along the site axis) over the index terms, guard-before-allocation path check, literal/binding checks of the loaders",
+        "text": "generate_hilbert_space, subspace_vector and _convert_basis_element_to_index are all big-endian (site 0 = most significant bit; rows in ascending integer order; weights 2^(n-1)..2^0); oversized spaces are "
+                "refused by `size > max_size` before any allocation; loaders read samples/targets as float32 and bases as str, map target columns 0/1 to real/imaginary, return [samples, target, bases, all bases] in order, "
+                "load_data_DM refuses a single matrix file; extract_refbasis_samples keeps samples[all(bases == 'Z', dim=1)].",
+        "design_ref": "DESIGN.md section 4 C19",
+        "note": TB + "Not decided: np.loadtxt parsing.",
+    },
+    "C20": {
+        "technique": "static analysis: attribute resolution along MRO / nn.Module API table (definite AttributeError = violation), storage-identity (alias) analysis of the two networks, constructor binding by abstract interpretation, zero-segment analysis of the phase gradient",
+        "text": "With module= every state type is constructible, uses the given module as amplitude network with its sizes and (where present) a separate phase network with independent parameter storage of the same shapes; "
+                "from sizes the RBM constructors receive (num_visible, num_hidden[, num_aux]) under those names, weights are randn/sqrt(nv) and biases zero; reinitialisation redraws every network with unchanged shapes; complex "
+                "and mixed fit refuse a missing input_bases before anything happens; every producer of the phase network's gradient has a structurally zero auxiliary-bias segment.",
+        "design_ref": "DESIGN.md section 4 C20",
+        "note": TB + "Not decided: optimizers that move parameters with zero gradient (weight decay acts on the value, which is zero).",
+    },
+})
+
 NOT_APPLICABLE = {}
 
 ENGINES = [
@@ -91,6 +175,8 @@ ENGINES = [
      "kind_free_text": "repository-specific static analyser (pure stdlib): program model with MRO/property/decorator resolution, statement CFG with dominators, "
                        "abstract interpreter with kind/shape/alias-effect/term facets and context-sensitive inlining, exchange parity, protocol automata, integer bounds"},
 ]
+
+ENGINES[0]["serves_properties"] = sorted(CHECKS)
 
 NOTES = ("Static-analysis family only: every verdict is computed from the source text of /repo/qucumber as it is on disk when the check starts; the library is never imported or executed. "
          "Exit 0 = all obligations discharged; exit 1 + VIOLATION line = a definite structural discrepancy; exit 2 = UNDECIDED / analysis error (never a silent pass). See DESIGN.md.")
